@@ -96,6 +96,20 @@ Proof.
   destruct Hs as [-> | ->]; [reflexivity | rewrite N.eqb_refl; apply orb_true_r].
 Qed.
 
+(* a page number with a hexadecimal digit is never one of the decimal pages 0..99 a reader can select *)
+Theorem hex_page_is_other : forall tens units pn0, tens < 16 -> units < 16 -> (9 < tens \/ 9 < units) ->
+  (0 <= pn0 <= 99)%Z -> page_code tens units <> pn0.
+Proof.
+  intros tens units pn0 Ht Hu Hhex Hp.
+  assert (S : forallb (fun t => forallb (fun u => negb ((9 <? t) || (9 <? u)) || (256 <=? page_code t u)%Z) (below 16)) (below 16) = true)
+    by (vm_compute; reflexivity).
+  rewrite forallb_forall in S. specialize (S tens (below_in 16 tens Ht)).
+  rewrite forallb_forall in S. specialize (S units (below_in 16 units Hu)).
+  assert (Hh : (9 <? tens) || (9 <? units) = true).
+  { apply orb_true_iff. destruct Hhex as [H|H]; [left | right]; apply N.ltb_lt; exact H. }
+  rewrite Hh in S. cbn [negb orb] in S. apply Z.leb_le in S. lia.
+Qed.
+
 (* ---- a worked example: page 888 (German option, then option-less code 7), two instances and an erase page, in a
    parallel-mode service with a page of magazine 1 interleaved, stuffing, X/26, a wrong-framing unit, a terminating
    page 889 followed by a row of magazine 8, packed three units per PES packet ---- *)
